@@ -170,6 +170,43 @@ def _gen_http_headers(headers):
     return retval
 
 
+class _ClosingIterator(object):
+    """Iterator over the chunks of a response body that runs ``on_close``
+    exactly once: as soon as the last chunk was handed over to the gateway, or
+    when the gateway calls ``close()`` (see PEP 3333), whichever comes first.
+    """
+
+    def __init__(self, chunks, on_close):
+        self.__chunks = iter(chunks)
+        self.__on_close = on_close
+
+    def __iter__(self):
+        return self
+
+    def __next__(self):
+        try:
+            return next(self.__chunks)
+
+        except BaseException:  # includes StopIteration
+            self.close()
+            raise
+
+    next = __next__  # python 2
+
+    def close(self):
+        on_close, self.__on_close = self.__on_close, None
+        if on_close is None:
+            return
+
+        try:
+            chunks_close = getattr(self.__chunks, 'close', None)
+            if chunks_close is not None:
+                chunks_close()
+
+        finally:
+            on_close()
+
+
 class WsgiTransportContext(HttpTransportContext):
     """The class that is used in the transport attribute of the
     :class:`WsgiMethodContext` class."""
@@ -369,11 +406,7 @@ class WsgiApplication(HttpBase):
                                                     str(len(ctx.transport.wsdl))
         start_response(HTTP_200, _gen_http_headers(ctx.transport.resp_headers))
 
-        retval = ctx.transport.wsdl
-
-        ctx.close()
-
-        return [retval]
+        return _ClosingIterator([ctx.transport.wsdl], ctx.close)
 
     def handle_error(self, p_ctx, others, error, start_response):
         """Serialize errors to an iterable of strings and return them.
@@ -406,7 +439,8 @@ class WsgiApplication(HttpBase):
             # Report but ignore any exceptions from auxiliary methods.
             logger.exception(e)
 
-        return chain(p_ctx.out_string, self.__finalize(p_ctx))
+        return _ClosingIterator(p_ctx.out_string,
+                                              lambda: self.__finalize(p_ctx))
 
     def handle_rpc(self, req_env, start_response):
         initial_ctx = WsgiMethodContext(self, req_env,
@@ -504,7 +538,8 @@ class WsgiApplication(HttpBase):
         start_response(p_ctx.transport.resp_code,
                                 _gen_http_headers(p_ctx.transport.resp_headers))
 
-        retval = chain(p_ctx.out_string, self.__finalize(p_ctx))
+        retval = _ClosingIterator(p_ctx.out_string,
+                                              lambda: self.__finalize(p_ctx))
 
         try:
             process_contexts(self, others, p_ctx, error=None)
@@ -517,8 +552,6 @@ class WsgiApplication(HttpBase):
     def __finalize(self, p_ctx):
         p_ctx.close()
         self.event_manager.fire_event('wsgi_close', p_ctx)
-
-        return ()
 
     def __reconstruct_wsgi_request(self, http_env):
         """Reconstruct http payload using information in the http header."""
